@@ -203,8 +203,9 @@ def run(ctx):
 def owner_of(f):
     """short name of the function a local DepsActions class lives in"""
     import re
-    m = re.findall(r"([A-Za-z_]\w*)\(", f.cls)
-    cl = re.findall(r"([A-Za-z_]\w*)::[A-Za-z_]\w*\(", f.cls)
+    head = f.key.split("::DepsActions")[0]
+    m = re.findall(r"([A-Za-z_]\w*)\(", head)
+    cl = re.findall(r"([A-Za-z_]\w*)::[A-Za-z_]\w*\(", head)
     return "%s::%s" % (cl[-1], m[-1]) if m and cl else (m[-1] if m else f.cls.split("::")[-1])
 
 
